@@ -32,6 +32,8 @@ func main() {
 		cmdVerify(os.Args[2:])
 	case "check":
 		os.Exit(cmdCheck(os.Args[2:]))
+	case "modset":
+		os.Exit(cmdModset(os.Args[2:]))
 	case "extlist":
 		os.Exit(cmdExtList())
 	case "sweep":
